@@ -136,3 +136,30 @@ func zzH_C06_build() {
 		zzv.Assert("header-count", len(nenv.header) == want)
 	}
 }
+
+func init() {
+	zzHarnesses["zzH_C07_ansi"] = zzH_C07_ansi
+}
+
+// H7.ansi: the two --ansi record processors of Run (lifted): the text of the item - which is what
+// gets searched and printed - is the record minus every sequence the documented scanner removes
+// (not only the ESC-introduced ones), for two consecutive records (colour state carried over).
+func zzH_C07_ansi() {
+	var proc func(data []byte) (util.Chars, *[]ansiOffset)
+	if zzv.CfgBool("colored") {
+		env := &zzEnv_ansiColored{}
+		proc = zzLift_ansiColored(env)
+	} else {
+		env := &zzEnv_ansiPlain{}
+		proc = zzLift_ansiPlain(env)
+	}
+	for rec := 0; rec < 2; rec++ {
+		n := zzv.Choose(0, zzv.CfgInt("nmax"))
+		s := zzString(n, zzv.CfgInt("bytes"))
+		chars, _ := proc([]byte(s))
+		zzv.Reach("processed")
+		zzv.Assert("ansi-record-text-is-the-record-minus-sequences", chars.ToString() == zzRefStrip(s))
+		item := Item{text: chars}
+		zzv.Assert("ansi-output-is-the-stripped-record", item.AsString(true) == zzRefStrip(s))
+	}
+}
